@@ -68,6 +68,10 @@ def gen(tier, rnd):
     for c in sorted(codes)[::3]: L.append(line(65536, 'stream', c, [], [], [b'chunk']))
     for n in SIZES: L.append(line(1 << 20, 'send', 200, [], [], [body_of(rnd, n)]))
     for n in SIZES: L.append(line(1 << 20, 'stream', 200, [], [], [body_of(rnd, n)], 'f'))
+    # Http::serveFile: head from the writer, body from a file
+    for n in SIZES[::2]: L.append(line(1 << 20, 'file', 200, [], [], [body_of(rnd, n)]))
+    for _ in range(12 if tier == 'quick' else 200):
+        L.append(line(1 << 20, 'file', 200, pick_headers(rnd), pick_cookies(rnd), [body_of(rnd, rnd.choice(SIZES))]))
     N = 250 if tier == 'quick' else 4000
     for _ in range(N):
         code = rnd.choice(sorted(codes)); hs = pick_headers(rnd); cs = pick_cookies(rnd)
@@ -124,6 +128,9 @@ def oracle(ln, out):
     m = re.search(r' send=(.*?) size=(-?\d+) herr=(\S+)$', out)
     if not m: return 'unexpected output ' + out[:80]
     send, size, herr = m.group(1), int(m.group(2)), m.group(3)
+    if mode == 'file':
+        code = 200
+        hs = [(n, v) for n, v in hs if n != 'Content-Type'] + [('Content-Type', 'application/octet-stream')]
     if mode == 'send':
         body = chunks[0] if chunks else b''
         total = fixed_total(codes, code, hs, cs, body)
@@ -169,14 +176,17 @@ def oracle(ln, out):
     if sorted(gotc) != sorted(wantc): return ('cookies', 'cookies emitted %r, set %r' % (sorted(gotc), sorted(wantc)))
     extra = [n for n in names if n not in [x.lower() for x, _ in want] + ['set-cookie', 'content-length', 'transfer-encoding']]
     if extra: return ('header-extra', 'headers nobody set: %r' % extra)
-    if mode == 'send':
+    if mode in ('send', 'file'):
         body_set = chunks[0] if chunks else b''
         cl = [v for n, v in fields if n.lower() == 'content-length']
         if len(cl) != 1 or 'transfer-encoding' in names: return ('framing', 'Content-Length emitted %d times, Transfer-Encoding %s' % (len(cl), 'present' if 'transfer-encoding' in names else 'absent'))
         if not re.fullmatch(r'\d+', cl[0]) or int(cl[0]) != len(body): return ('framing', 'Content-Length %s but %d body bytes on the wire' % (cl[0], len(body)))
         if body != body_set: return ('body', 'body on the wire differs from the body sent (%d vs %d bytes)' % (len(body), len(body_set)))
-        if send != 'ok:%d' % total: return ('size', 'send() promise %s but %d bytes were emitted' % (send, total))
-        if size != total: return ('size', 'getResponseSize()=%d but %d bytes were emitted' % (size, total))
+        if mode == 'file':
+            if send != 'ok:%d' % len(body_set): return ('size', 'serveFile() promise %s for a %d-byte file' % (send, len(body_set)))
+        else:
+            if send != 'ok:%d' % total: return ('size', 'send() promise %s but %d bytes were emitted' % (send, total))
+            if size != total: return ('size', 'getResponseSize()=%d but %d bytes were emitted' % (size, total))
     else:
         te = [v for n, v in fields if n.lower() == 'transfer-encoding']
         if te != ['chunked'] or 'content-length' in names: return ('framing', 'streamed response with Transfer-Encoding %r, Content-Length %s' % (te, 'present' if 'content-length' in names else 'absent'))
